@@ -172,7 +172,21 @@ WITNESSES = {
     "C15": ["c15_hyps", "c15_concl"],
     "C18": ["c18_hyps", "c18_concl", "static_hyps_PR_ds"],
     "C19": ["c19_hyps", "c19_concl"],
+    # dynamic solvers, command line, readers / writers (Crusta/Proofs/NonVacuityDyn.lean)
+    "C05": ["cli_hyps", "cli_concl"],
+    "C08": ["dyn_hyps_ST", "dyn_concl_ST", "dyn_hyps_PR_no", "dyn_hyps_PR", "dyn_concl_PR", "dynatt_hyps", "dynatt_concl"],
+    "C09": ["dyn_concl_ST", "dyn_concl_PR_no", "dynatt_concl"],
+    "C13": ["io_hyps_iccma", "io_concl_iccma"],
+    "C14": ["io_store_concl"],
+    "C16": ["io_hyps_reply", "io_concl_reply"],
 }
+_DYN_WITNESS_PROPS = ("C05", "C08", "C09", "C13", "C14", "C16")
+
+
+def witness_module(prop_id):
+    return "Crusta.Proofs.NonVacuityDyn" if prop_id in _DYN_WITNESS_PROPS else "Crusta.Proofs.NonVacuity"
+
+
 WITNESS_MODULE = "Crusta.Proofs.NonVacuity"
 
 
@@ -182,7 +196,7 @@ def audit(prop_id, run_dir):
     names = theorems_of(prop_id)
     wit = ["Crusta.NonVacuity." + n for n in WITNESSES.get(prop_id, [])]
     names = names + wit
-    src = "import Crusta.Props.%s\n" % prop_id + ("import %s\n" % WITNESS_MODULE if wit else "") + "".join("#print axioms %s\n" % n for n in names)
+    src = "import Crusta.Props.%s\n" % prop_id + ("import %s\n" % witness_module(prop_id) if wit else "") + "".join("#print axioms %s\n" % n for n in names)
     f = os.path.join(run_dir, "Audit_%s.lean" % prop_id)
     open(f, "w").write(src)
     rc, out = sh(["lake", "env", "lean", f], cwd=LEAN_DIR, timeout=1200)
